@@ -844,14 +844,19 @@ fn build_struct(d: &mut Dice) -> GenCase {
     let mut fields = gen_fields(d, nf, shape, &mut labels);
     let fams: Vec<u8> = fields.iter().map(|f| f.fam).collect();
     let mut d_from = d.chance(60);
-    let d_into = d.chance(60);
+    let d_into = d.chance(55);
     let d_ctor = d.chance(35);
     if !d_from && !d_into && !d_ctor {
         d_from = true;
     }
+    // the "both derived, converting there and back is the identity" clause gets cases of its own: From and
+    // Into over all fields (other reference kinds may be added, nothing is skipped)
+    let rt = d.chance(10);
+    let d_from = d_from || rt;
+    let d_into = d_into || rt;
     // ---- From
     let mut from_attr = FromAttr::None;
-    if d_from && nf > 0 {
+    if d_from && nf > 0 && !rt {
         match d.weighted(&[4, 4, 2]) {
             0 => {}
             1 => {
@@ -865,7 +870,14 @@ fn build_struct(d: &mut Dice) -> GenCase {
     }
     // ---- Into
     let mut into_struct: Option<IntoAttr> = None;
-    if d_into {
+    if d_into && rt {
+        into_struct = match d.pick(4) {
+            0 => None,
+            1 => Some(IntoAttr::Empty),
+            2 => Some(IntoAttr::Parts(vec![IntoPart::Wrapped(vec![(0, None), (1, None)])])),
+            _ => Some(IntoAttr::Parts(vec![IntoPart::Wrapped(vec![(2, None)]), IntoPart::Wrapped(vec![(0, None)])])),
+        };
+    } else if d_into {
         let mut tries = 0;
         loop {
             for f in fields.iter_mut() {
@@ -1290,12 +1302,19 @@ fn build_negative(d: &mut Dice) -> GenCase {
     c
 }
 
+const NDICE: usize = 260;
+
 fn build(d: &mut Dice) -> GenCase {
-    match d.weighted(&[60, 34, 6]) {
+    let mut c = match d.weighted(&[60, 34, 6]) {
         0 => build_struct(d),
         1 => build_enum(d),
         _ => build_negative(d),
+    };
+    if d.used() > NDICE {
+        // choices beyond the dice vector are all "first alternative": measured, must stay rare
+        c.labels.push("dice_exhausted".into());
     }
+    c
 }
 
 // ------------------------------------------------------------------------------------------------
@@ -1377,9 +1396,9 @@ pub fn prop() -> DiceProp {
         crate_attrs: String::new(),
         nightly: false,
         check_only: false,
-        ndice: 260,
-        quick: (1100, 1),
-        thorough: (2600, 6),
+        ndice: NDICE,
+        quick: (2400, 1),
+        thorough: (6000, 5),
         build,
         fixed,
         classify,
@@ -1404,20 +1423,20 @@ pub fn prop() -> DiceProp {
             ("unannotated_variant_in_explicit_mode".into(), 0.08),
             ("explicit_mode_by_types_or_forward_only".into(), 0.03),
             ("fieldless_variant_without_impl".into(), 0.04),
-            ("into_kind=ref".into(), 0.08),
-            ("into_kind=ref_mut".into(), 0.08),
+            ("into_kind=ref".into(), 0.05),
+            ("into_kind=ref_mut".into(), 0.05),
             ("into_typed_owned".into(), 0.05),
-            ("into_typed_ref".into(), 0.02),
-            ("into_typed_ref_mut".into(), 0.02),
-            ("into_tuple_types".into(), 0.03),
-            ("into_skip".into(), 0.1),
-            ("into_skip_before_kept_field".into(), 0.05),
-            ("into_field_level".into(), 0.08),
-            ("into_field_attr_suppresses_struct_level".into(), 0.03),
+            ("into_typed_ref".into(), 0.01),
+            ("into_typed_ref_mut".into(), 0.01),
+            ("into_tuple_types".into(), 0.025),
+            ("into_skip".into(), 0.08),
+            ("into_skip_before_kept_field".into(), 0.04),
+            ("into_field_level".into(), 0.06),
+            ("into_field_attr_suppresses_struct_level".into(), 0.025),
             ("into_skip_and_field_conversion".into(), 0.01),
-            ("into_repeated_attr".into(), 0.03),
-            ("roundtrip".into(), 0.03),
-            ("negative".into(), 0.03),
+            ("into_repeated_attr".into(), 0.025),
+            ("roundtrip".into(), 0.05),
+            ("negative".into(), 0.02),
         ],
         shards: 0,
     }
